@@ -2,11 +2,12 @@
 from pyvc.sorts import *
 from pyvc import scan
 from specs.common import *
-from specs import startup, event_entry
+from specs import startup, event_entry, lifecycle
 
 
 def build(run):
     startup.verify_startup(run)
+    lifecycle.verify_init_async(run)
     event_entry.verify_event(run)          # the early-initialisation clause of SBlock.event
     # ---- lemmas: the progress automaton 0 -> -1 -> 1 -> -2 -> 2 gives "each routine at most once" -------------------------------------
     s, full = Int('s'), Const('full', BoolSort())
